@@ -163,6 +163,10 @@ func renderXML(d *metaDoc, label string) (string, int) {
 		b.WriteString("<?xml version=" + quoteWith(q, "1.0") + " encoding=" + quoteWith(q, label) + "?>")
 	case "version-encoding-standalone":
 		b.WriteString("<?xml version=" + quoteWith(q, "1.0") + " encoding=" + quoteWith(q, label) + " standalone=" + quoteWith(q, "yes") + "?>")
+	case "newline":
+		b.WriteString("<?xml version=" + quoteWith(q, "1.0") + "\nencoding=" + quoteWith(q, label) + "\n?>")
+	case "tab":
+		b.WriteString("<?xml\tversion=" + quoteWith(q, "1.0") + "\tencoding=" + quoteWith(q, label) + "?>")
 	default:
 		b.WriteString("<?xml  version=" + quoteWith(q, "1.0") + "   encoding=" + quoteWith(q, label) + "  ?>")
 	}
@@ -174,7 +178,7 @@ func renderXML(d *metaDoc, label string) (string, int) {
 var hostileBytes = map[string]string{
 	"tok": "a", "UP": "Q", "dq": `"`, "sq": "'", "bs": `\`, "semi": ";", "eq": "=", "comma": ",", "sp": " ", "tab": "\t",
 	"cr": "\r", "lf": "\n", "esc": "\x1b", "ff": "\x0c", "del": "\x7f", "pct": "%", "star": "*", "u8": "\xc3\xa9",
-	"cont": "\xa9", "xff": "\xff", "paren": "(", "gt": ">", "slash": "/",
+	"cont": "\xa9", "xff": "\xff", "paren": "(", "gt": ">", "slash": "/", "colon": ":", "lt": "<", "at": "@", "qm": "?", "lbr": "[", "rbr": "]",
 }
 
 func renderHostile(d *metaDoc) (string, int) {
